@@ -32,4 +32,18 @@ pub use embedded_cli_macros::{Command, CommandGroup};
 #[path = "private/mod.rs"]
 pub mod __private;
 
+#[cfg(feature = "verif-hooks")]
+#[doc(hidden)]
+pub mod __verif {
+    pub use crate::editor::Editor;
+    #[cfg(feature = "history")]
+    pub use crate::history::History;
+    pub use crate::input::{ControlInput, Input, InputGenerator};
+    pub use crate::token::{Tokens, TokensIter};
+    pub use crate::utf8::Utf8Accum;
+    pub mod utils {
+        pub use crate::utils::*;
+    }
+}
+
 //TODO: organize pub uses better
